@@ -137,6 +137,44 @@ class Inliner:
                 self.new[name] = ds[0]
         self.inlined: dict[str, int] = {}
         self.log: list[str] = []
+        # names that are (also) data attributes somewhere in the package: `x.<name>` need not be the new method / property
+        self.attr_names: set[str] = set()
+        for tree in trees.values():
+            for n in ast.walk(tree):
+                if isinstance(n, ast.Attribute) and isinstance(n.ctx, (ast.Store, ast.Del)):
+                    self.attr_names.add(n.attr)
+                elif isinstance(n, ast.ClassDef):
+                    for b_ in n.body:
+                        if isinstance(b_, ast.AnnAssign) and isinstance(b_.target, ast.Name):
+                            self.attr_names.add(b_.target.id)
+                        elif isinstance(b_, ast.Assign):
+                            self.attr_names.update(t_.id for t_ in b_.targets if isinstance(t_, ast.Name))
+        self._cur_fn = None
+
+    def _typed(self, e: ast.AST, cname: str) -> bool:
+        """the local name `e` is declared / constructed as an instance of class `cname` in the function being rewritten"""
+        fn = self._cur_fn
+        if fn is None or not isinstance(e, ast.Name):
+            return False
+        for a in fn.args.posonlyargs + fn.args.args + fn.args.kwonlyargs:
+            if a.arg == e.id and a.annotation is not None:
+                return ast.unparse(a.annotation).strip("'\"").split('.')[-1] == cname
+        vals = []
+        for n in ast.walk(fn):
+            if isinstance(n, ast.AnnAssign) and isinstance(n.target, ast.Name) and n.target.id == e.id:
+                return ast.unparse(n.annotation).strip("'\"").split('.')[-1] == cname
+            if isinstance(n, ast.Assign) and any(isinstance(t_, ast.Name) and t_.id == e.id for t_ in n.targets):
+                vals.append(n.value)
+            elif isinstance(n, ast.Name) and n.id == e.id and isinstance(n.ctx, ast.Store) and not any(n in getattr(a_, 'targets', []) for a_ in ast.walk(fn) if isinstance(a_, ast.Assign)):
+                return False
+        return bool(vals) and all(isinstance(v, ast.Call) and ast.unparse(v.func).split('.')[-1] == cname for v in vals)
+
+    def _instance_receiver(self, recv: ast.AST, name: str) -> bool:
+        """`<recv>.<name>` is the NEW method / property `name`: recv is a plain name / attribute chain and either its class is declared
+        in the function, or no object of the package has a data attribute called `name`"""
+        if name not in self.new or self.new[name][2] is None or not _simple(recv) or isinstance(recv, ast.Constant):
+            return False
+        return self._typed(recv, self.new[name][2].name) or name not in self.attr_names
 
     def _index(self, rel, body, cls, prefix):
         for st in body:
@@ -203,6 +241,9 @@ class Inliner:
                 recv = r
             elif name in self.new and self.new[name][2] is not None and r == self.new[name][2].name:
                 recv = r
+            elif self._instance_receiver(f.value, name) and not (r[:1].isupper() and '.' not in r):
+                recv = r
+                call._instance_recv = True      # type: ignore[attr-defined]
             elif cls is not None and r[:1].isupper() and r != cls.name and call.args and isinstance(call.args[0], ast.Name) and call.args[0].id == 'self':
                 recv = 'self'       # explicit delegation, decided below
             else:
@@ -242,8 +283,7 @@ class Inliner:
         return d, recv, decs
 
     def _inline_in_function(self, rel: str, cls, fn) -> bool:
-        if fn.name in self.new and self.new[fn.name][3] is fn:
-            pass  # helpers may themselves call newer helpers: allowed (depth bounded by the outer loop)
+        self._cur_fn = fn
         changed = self._inline_expression_helpers(rel, cls, fn)
         return self._inline_in_body(rel, cls, fn, fn.body) or changed
 
@@ -276,6 +316,8 @@ class Inliner:
                 first = params.pop(0)
                 if 'classmethod' in decs:
                     mapping[first] = ast.parse({'self': 'self.__class__', 'cls': 'cls'}.get(recv, recv), mode='eval').body
+                elif getattr(call, '_instance_recv', False):
+                    mapping[first] = ast.parse(recv, mode='eval').body
                 elif recv != 'self':
                     return None
                 else:
@@ -292,7 +334,7 @@ class Inliner:
                     if p_ not in defaults:
                         return None
                     args[p_] = defaults[p_]
-            e = copy.deepcopy(body[0].value)
+            e = _unwalrus(copy.deepcopy(body[0].value))
             for p_, a_ in args.items():
                 uses = sum(1 for n_ in ast.walk(e) if isinstance(n_, ast.Name) and n_.id == p_)
                 if not (_simple(a_) or (uses <= 1 and _pure(a_))):
@@ -335,15 +377,18 @@ class Inliner:
             def visit_Attribute(self, n: ast.Attribute):
                 # `self.<p>` where <p> is a NEW read-only property whose body is a single `return <expr>`: an abbreviation of that expression
                 self.generic_visit(n)
-                if isinstance(n.ctx, ast.Load) and isinstance(n.value, ast.Name) and n.value.id == 'self' and n.attr in inl.new and cls is not None:
+                own = isinstance(n.value, ast.Name) and n.value.id == 'self' and cls is not None
+                if isinstance(n.ctx, ast.Load) and n.attr in inl.new and (own or inl._instance_receiver(n.value, n.attr)):
                     hrel, hq, hcls, hnode = inl.new[n.attr]
-                    if hcls is not None and (hcls is cls or hcls.name in [ast.unparse(b_) for b_ in cls.bases]) and [ast.unparse(d_) for d_ in hnode.decorator_list] == ['property'] \
+                    if hcls is not None and (not own or hcls is cls or hcls.name in [ast.unparse(b_) for b_ in cls.bases]) and [ast.unparse(d_) for d_ in hnode.decorator_list] == ['property'] \
                             and hnode is not fn and not isinstance(hnode, ast.AsyncFunctionDef):
                         body = [s_ for s_ in hnode.body if not (isinstance(s_, ast.Expr) and isinstance(s_.value, ast.Constant))]
                         ps = [a_.arg for a_ in hnode.args.args]
+                        if len(body) == 1 and isinstance(body[0], ast.Return) and body[0].value is not None:
+                            body = [ast.Return(_unwalrus(copy.deepcopy(body[0].value)))]
                         if len(body) == 1 and isinstance(body[0], ast.Return) and body[0].value is not None and len(ps) == 1 and \
                                 not any(isinstance(x_, (ast.Lambda, ast.Yield, ast.YieldFrom, ast.Await, ast.NamedExpr)) for x_ in ast.walk(body[0].value)):
-                            e = _Subst({ps[0]: ast.Name('self', ast.Load())}, {}).visit(copy.deepcopy(body[0].value))
+                            e = _Subst({ps[0]: copy.deepcopy(n.value)}, {}).visit(copy.deepcopy(body[0].value))
                             inl._count(hnode)
                             changed[0] = True
                             return ast.copy_location(e, n)
@@ -371,7 +416,11 @@ class Inliner:
                 for c in st.cases:
                     if self._inline_in_body(rel, cls, fn, c.body):
                         changed = True
-            gen_stmts = self._expand_generator(st, cls, rel, fn)
+            gen_stmts = self._expand_with(st, cls, rel, fn)
+            if gen_stmts is None:
+                gen_stmts = self._expand_generator(st, cls, rel, fn)
+            if gen_stmts is None:
+                gen_stmts = self._materialise_generator(st, cls, rel, fn)
             if gen_stmts is not None:
                 body[i:i + 1] = gen_stmts
                 changed = True
@@ -487,7 +536,7 @@ class Inliner:
             bind_first = params.pop(0)
             mapping[bind_first] = ast.parse(recv if 'classmethod' not in decs else
                                             {'self': 'self.__class__', 'cls': 'cls'}.get(recv, recv), mode='eval').body
-            if 'classmethod' not in decs and recv != 'self':
+            if 'classmethod' not in decs and recv != 'self' and not getattr(call, '_instance_recv', False):
                 return None
         args: dict[str, ast.AST] = {}
         call_args = call.args[1:] if getattr(call, '_explicit_self', False) else call.args
@@ -638,6 +687,260 @@ class Inliner:
         self._count(hnode)
         return [ast.fix_missing_locations(s_) for s_ in _splice(out)] or [ast.Pass()]
 
+    def _expand_with(self, st: ast.stmt, cls, rel, fn) -> Optional[list[ast.stmt]]:
+        """`with cm(a..) [as x]: BODY` where cm is a NEW function decorated with contextlib.contextmanager (asynccontextmanager for
+        `async with`): the statement runs the generator up to its `yield`, then BODY, and an exception (or return / break) leaving BODY
+        is raised (or resumes) at that `yield` -- which is what the generator's text says with BODY in place of the `yield`:
+              PRE; try: yield V finally: POST      ->      PRE; try: [x = V;] BODY finally: POST
+        Only the plain case: one `yield`, as a statement, not inside a loop; no `return` in the generator."""
+        if not isinstance(st, (ast.With, ast.AsyncWith)) or len(st.items) != 1:
+            return None
+        item = st.items[0]
+        call = item.context_expr
+        if not isinstance(call, ast.Call) or (item.optional_vars is not None and not isinstance(item.optional_vars, ast.Name)):
+            return None
+        f = call.func
+        name = f.attr if isinstance(f, ast.Attribute) else f.id if isinstance(f, ast.Name) else None
+        if isinstance(f, ast.Name) and name not in self.new:
+            return self._expand_with_class(st, call, fn)
+        if name not in self.new:
+            return None
+        hrel, hq, hcls, hnode = self.new[name]
+        decs = [ast.unparse(x).split('.')[-1] for x in hnode.decorator_list]
+        want = 'asynccontextmanager' if isinstance(st, ast.AsyncWith) else 'contextmanager'
+        if decs != [want] or isinstance(hnode, ast.AsyncFunctionDef) != isinstance(st, ast.AsyncWith) or hnode is fn:
+            return None
+        recv = ast.unparse(f.value) if isinstance(f, ast.Attribute) else ''
+        if (recv == '') != (hcls is None) or (recv and recv != 'self'):
+            return None
+        inner = [n for n in ast.walk(hnode) if n is not hnode]
+        if any(isinstance(n, FUNC + (ast.Lambda, ast.Return, ast.YieldFrom, ast.ClassDef)) for n in inner):
+            return None
+        yields = [n for n in inner if isinstance(n, ast.Yield)]
+        ystmts = [n for n in inner if isinstance(n, ast.Expr) and isinstance(n.value, ast.Yield)]
+        if len(yields) != 1 or len(ystmts) != 1:
+            return None
+        if any(isinstance(n, (ast.For, ast.While, ast.AsyncFor)) and any(y is ystmts[0] for y in ast.walk(n)) for n in inner):
+            return None
+        if item.optional_vars is not None and ystmts[0].value.value is None:
+            return None
+        if any(k_.arg is None for k_ in call.keywords) or any(isinstance(a, ast.Starred) for a in call.args) or hnode.args.vararg or hnode.args.kwarg:
+            return None
+        k = next(_counter)
+        h = copy.deepcopy(hnode)
+        params = [a.arg for a in h.args.posonlyargs + h.args.args]
+        kwonly = [a.arg for a in h.args.kwonlyargs]
+        defaults = dict(zip(params[len(params) - len(h.args.defaults):], h.args.defaults))
+        defaults.update({a: d for a, d in zip(kwonly, h.args.kw_defaults) if d is not None})
+        mapping: dict[str, ast.AST] = {}
+        if hcls is not None:
+            if not params:
+                return None
+            mapping[params.pop(0)] = ast.Name('self', ast.Load())
+        if len(call.args) > len(params):
+            return None
+        args = dict(zip(params, call.args))
+        for kw_ in call.keywords:
+            if kw_.arg in args or kw_.arg not in params + kwonly:
+                return None
+            args[kw_.arg] = kw_.value
+        for p_ in params + kwonly:
+            if p_ not in args:
+                if p_ not in defaults:
+                    return None
+                args[p_] = defaults[p_]
+        caller_names = _all_names(fn)
+        stores = {n.id for n in ast.walk(h) if isinstance(n, ast.Name) and isinstance(n.ctx, (ast.Store, ast.Del))}
+        pre: list[ast.stmt] = []
+        rename: dict[str, str] = {}
+        body_stores = {n.id for b_ in st.body for n in ast.walk(b_) if isinstance(n, ast.Name) and isinstance(n.ctx, (ast.Store, ast.Del))}
+        for p_, a_ in args.items():
+            free = {n.id for n in ast.walk(a_) if isinstance(n, ast.Name)}
+            if _simple(a_) and p_ not in stores and not (free & body_stores):
+                mapping[p_] = a_
+            else:
+                nm = p_ if p_ not in caller_names else f'{p_}__inl{k}'
+                if nm != p_:
+                    rename[p_] = nm
+                pre.append(ast.copy_location(ast.Assign([ast.Name(nm, ast.Store())], copy.deepcopy(a_), lineno=call.lineno), call))
+        for n_ in _assigned_names(h) - set(params) - set(kwonly):
+            if n_ in caller_names:
+                rename[n_] = f'{n_}__inl{k}'
+        body = [s_ for s_ in h.body]
+        if body and isinstance(body[0], ast.Expr) and isinstance(body[0].value, ast.Constant) and isinstance(body[0].value.value, str):
+            body = body[1:]
+        sub = _Subst(mapping, rename)
+        body = [sub.visit(s_) for s_ in body]
+
+        def rewrite(stmts: list) -> list:
+            out = []
+            for s_ in stmts:
+                if isinstance(s_, ast.Expr) and isinstance(s_.value, ast.Yield):
+                    if item.optional_vars is not None:
+                        out.append(ast.copy_location(ast.Assign([ast.Name(item.optional_vars.id, ast.Store())], s_.value.value, lineno=st.lineno), st))
+                    out.extend(st.body)
+                    continue
+                for fld in ('body', 'orelse', 'finalbody'):
+                    subl = getattr(s_, fld, None)
+                    if isinstance(subl, list) and subl and isinstance(subl[0], ast.stmt):
+                        setattr(s_, fld, rewrite(subl))
+                for h_ in getattr(s_, 'handlers', []) or []:
+                    h_.body = rewrite(h_.body)
+                out.append(s_)
+            return out
+        out = pre + rewrite(body)
+        self._count(hnode)
+        return [ast.fix_missing_locations(x) for x in out] or [ast.Pass()]
+
+    def _expand_with_class(self, st, call: ast.Call, fn) -> Optional[list[ast.stmt]]:
+        """`[async] with C(a..): BODY` where C is a NEW class whose __init__ only stores its parameters, whose __[a]enter__ does nothing
+        but return, and whose __[a]exit__ is `if exc_type is not None: STMTS` (falling off the end: the exception is not swallowed):
+              try: BODY  except BaseException: STMTS[self._x := a]; raise
+        or, when __[a]exit__ does not look at the exception at all:   try: BODY finally: STMTS."""
+        cands = [(rel_, c_) for rel_, t_ in self.trees.items() for c_ in t_.body if isinstance(c_, ast.ClassDef) and c_.name == call.func.id]
+        if len(cands) != 1 or st.items[0].optional_vars is not None:
+            return None
+        rel_, c_ = cands[0]
+        is_async = isinstance(st, ast.AsyncWith)
+        en, ex = ('__aenter__', '__aexit__') if is_async else ('__enter__', '__exit__')
+        meths = {m.name: m for m in c_.body if isinstance(m, FUNC)}
+        if any(f'{rel_}:{c_.name}.{m}' in self.known for m in meths) or not {'__init__', en, ex} <= set(meths) or c_.bases:
+            return None
+        init, enter, exit_ = meths['__init__'], meths[en], meths[ex]
+
+        def stmts(m):
+            return [s_ for s_ in m.body if not (isinstance(s_, ast.Expr) and isinstance(s_.value, ast.Constant))]
+        fields: dict[str, str] = {}
+        for s_ in stmts(init):
+            t_ = s_.targets[0] if isinstance(s_, ast.Assign) and len(s_.targets) == 1 else s_.target if isinstance(s_, ast.AnnAssign) else None
+            if not (isinstance(t_, ast.Attribute) and isinstance(t_.value, ast.Name) and t_.value.id == 'self' and isinstance(s_.value, ast.Name)):
+                return None
+            fields[t_.attr] = s_.value.id
+        if any(not isinstance(s_, (ast.Return, ast.Pass)) or any(isinstance(n_, (ast.Await, ast.Call)) for n_ in ast.walk(s_)) for s_ in stmts(enter)):
+            return None
+        params = [a.arg for a in init.args.args][1:]
+        if call.keywords or len(call.args) != len(params) or not all(_simple(a) for a in call.args) or init.args.vararg or init.args.kwarg:
+            return None
+        argmap = dict(zip(params, call.args))
+        eparams = [a.arg for a in exit_.args.args][1:]
+        ebody = stmts(exit_)
+        if any(isinstance(n_, (ast.Return, ast.Yield)) for s_ in ebody for n_ in ast.walk(s_)):
+            return None
+        uses_exc = any(isinstance(n_, ast.Name) and n_.id in eparams for s_ in ebody for n_ in ast.walk(s_))
+        if uses_exc:
+            if not (len(ebody) == 1 and isinstance(ebody[0], ast.If) and not ebody[0].orelse and eparams and ast.unparse(ebody[0].test) == f'{eparams[0]} is not None'
+                    and not any(isinstance(n_, ast.Name) and n_.id in eparams for s_ in ebody[0].body for n_ in ast.walk(s_))):
+                return None
+            ebody = ebody[0].body
+        # stores of names in the body that the arguments read would change what `self._x` means at exit
+        body_stores = {n.id for b_ in st.body for n in ast.walk(b_) if isinstance(n, ast.Name) and isinstance(n.ctx, (ast.Store, ast.Del))}
+        if any(isinstance(n, ast.Name) and n.id in body_stores for a in call.args for n in ast.walk(a)):
+            return None
+
+        class R(ast.NodeTransformer):
+            def __init__(self):
+                self.bad = False
+
+            def visit_Attribute(self, n):
+                if isinstance(n.value, ast.Name) and n.value.id == 'self':
+                    if n.attr in fields and isinstance(n.ctx, ast.Load):
+                        return copy.deepcopy(argmap[fields[n.attr]])
+                    self.bad = True
+                return self.generic_visit(n)
+
+            def visit_Name(self, n):
+                if n.id == 'self':
+                    self.bad = True
+                return n
+        r = R()
+        ebody = [r.visit(copy.deepcopy(s_)) for s_ in ebody]
+        if r.bad:
+            return None
+        if uses_exc:
+            handler = ast.ExceptHandler(ast.Name('BaseException', ast.Load()), None, ebody + [ast.Raise(None, None)])
+            out = ast.Try(st.body, [handler], [], [])
+        else:
+            out = ast.Try(st.body, [], [], ebody)
+        self.inlined[c_.name] = self.inlined.get(c_.name, 0) + 1
+        return [ast.fix_missing_locations(ast.copy_location(out, st))]
+
+    def _materialise_generator(self, st: ast.stmt, cls, rel, fn) -> Optional[list[ast.stmt]]:
+        """`.. zip(xs, G(a)) ..` where G is a NEW module-level generator function that only computes (bounded `for` loops, `if`, local
+        assignments, `yield v`, `yield from E`; no while, no await, no stores outside its locals): the values it would hand out lazily
+        are the list it would fill eagerly --
+              __gN = [];  <body of G with `yield v` -> __gN.append(v), `yield from E` -> __gN.extend(E)>;   .. zip(xs, __gN) ..
+        Only where the call is evaluated once per execution of the statement (not inside a lambda or a comprehension body)."""
+        if not isinstance(st, (ast.Assign, ast.AnnAssign, ast.Return, ast.Expr)) or getattr(st, 'value', None) is None:
+            return None
+        from .normalise import _evaluated_repeatedly
+        site = None
+        for c in ast.walk(st.value):
+            if isinstance(c, ast.Call) and isinstance(c.func, ast.Name) and c.func.id in self.new and c is not st.value:
+                hrel, hq, hcls, hnode = self.new[c.func.id]
+                if hcls is None and isinstance(hnode, ast.FunctionDef) and not hnode.decorator_list and hnode is not fn and \
+                        any(isinstance(n, (ast.Yield, ast.YieldFrom)) for n in ast.walk(hnode)) and not _evaluated_repeatedly([st.value], c):
+                    site = (c, hnode)
+                    break
+        if site is None:
+            return None
+        call, hnode = site
+        inner = [n for n in ast.walk(hnode) if n is not hnode]
+        if any(isinstance(n, FUNC + (ast.Lambda, ast.Return, ast.ClassDef, ast.While, ast.Await, ast.Try, ast.With, ast.Global, ast.Nonlocal, ast.Delete)) for n in inner):
+            return None
+        if any(isinstance(n, (ast.Attribute, ast.Subscript)) and isinstance(n.ctx, (ast.Store, ast.Del)) for n in inner):
+            return None
+        ys = [n for n in inner if isinstance(n, (ast.Yield, ast.YieldFrom))]
+        ystmts = [n for n in inner if isinstance(n, ast.Expr) and isinstance(n.value, (ast.Yield, ast.YieldFrom)) and n.value.value is not None]
+        if len(ys) != len(ystmts):
+            return None
+        if call.keywords or any(isinstance(a, ast.Starred) for a in call.args) or hnode.args.vararg or hnode.args.kwarg or hnode.args.kwonlyargs:
+            return None
+        k = next(_counter)
+        h = copy.deepcopy(hnode)
+        params = [a.arg for a in h.args.posonlyargs + h.args.args]
+        defaults = dict(zip(params[len(params) - len(h.args.defaults):], h.args.defaults))
+        if len(call.args) > len(params):
+            return None
+        args = dict(zip(params, call.args))
+        for p_ in params:
+            if p_ not in args:
+                if p_ not in defaults:
+                    return None
+                args[p_] = defaults[p_]
+        stores = {n.id for n in ast.walk(h) if isinstance(n, ast.Name) and isinstance(n.ctx, (ast.Store, ast.Del))}
+        mapping: dict[str, ast.AST] = {}
+        for p_, a_ in args.items():
+            if not _simple(a_) or p_ in stores:
+                return None
+            mapping[p_] = a_
+        caller_names = _all_names(fn)
+        rename = {n_: f'{n_}__inl{k}' for n_ in _assigned_names(h) - set(params) if n_ in caller_names}
+        body = [s_ for s_ in h.body]
+        if body and isinstance(body[0], ast.Expr) and isinstance(body[0].value, ast.Constant) and isinstance(body[0].value.value, str):
+            body = body[1:]
+        sub = _Subst(mapping, rename)
+        body = [sub.visit(s_) for s_ in body]
+        acc = f'__g{k}'
+
+        def rewrite(stmts: list) -> list:
+            out = []
+            for s_ in stmts:
+                if isinstance(s_, ast.Expr) and isinstance(s_.value, (ast.Yield, ast.YieldFrom)):
+                    meth = 'append' if isinstance(s_.value, ast.Yield) else 'extend'
+                    out.append(ast.copy_location(ast.Expr(ast.Call(ast.Attribute(ast.Name(acc, ast.Load()), meth, ast.Load()), [s_.value.value], [])), s_))
+                    continue
+                for fld in ('body', 'orelse'):
+                    subl = getattr(s_, fld, None)
+                    if isinstance(subl, list) and subl and isinstance(subl[0], ast.stmt):
+                        setattr(s_, fld, rewrite(subl))
+                out.append(s_)
+            return out
+        body = rewrite(body)
+        _replace(st, call, ast.copy_location(ast.Name(acc, ast.Load()), call))
+        out = [ast.copy_location(ast.Assign([ast.Name(acc, ast.Store())], ast.List([], ast.Load()), lineno=st.lineno), st)] + body + [st]
+        self._count(hnode)
+        return [ast.fix_missing_locations(x) for x in out]
+
     def _expand_generator(self, st: ast.stmt, cls, rel, fn) -> Optional[list[ast.stmt]]:
         """A new GENERATOR helper consumed on the spot is the loop it contains:
              T = set(G(a..)) / list(G(a..))   ->   acc = set() / [];  <body of G with `yield v` -> acc.add(v) / acc.append(v)>;  T = acc
@@ -645,13 +948,17 @@ class Inliner:
         Both keep the interleaving of the helper's statements with the consumption of each value, which is what a generator does.
         Only the plain case: no `return`, no `yield from`, `yield` only as a statement, arguments that are names / attribute chains."""
         consumer = None
-        if isinstance(st, ast.Assign) and len(st.targets) == 1 and isinstance(st.value, ast.Call) and isinstance(st.value.func, ast.Name) and \
+        extend_to = None
+        if isinstance(st, (ast.Assign, ast.Return)) and (isinstance(st, ast.Return) or len(st.targets) == 1) and isinstance(st.value, ast.Call) and \
+                isinstance(st.value.func, ast.Name) and \
                 st.value.func.id in ('set', 'list') and len(st.value.args) == 1 and not st.value.keywords and isinstance(st.value.args[0], ast.Call):
             consumer, call = st.value.func.id, st.value.args[0]
-        elif isinstance(st, ast.For) and isinstance(st.iter, ast.Call) and not st.orelse and isinstance(st.target, ast.Name):
+        elif isinstance(st, ast.Expr) and isinstance(st.value, ast.Call) and isinstance(st.value.func, ast.Attribute) and st.value.func.attr == 'extend' and \
+                len(st.value.args) == 1 and not st.value.keywords and isinstance(st.value.args[0], ast.Call) and _simple(st.value.func.value):
+            consumer, call, extend_to = 'list', st.value.args[0], st.value.func.value
+        elif isinstance(st, ast.For) and isinstance(st.iter, ast.Call) and not st.orelse and \
+                (isinstance(st.target, ast.Name) or (isinstance(st.target, ast.Tuple) and all(isinstance(e_, ast.Name) for e_ in st.target.elts))):
             consumer, call = 'for', st.iter
-            if _own_jumps(st.body, (ast.Break, ast.Continue)):
-                return None
         else:
             return None
         f = call.func
@@ -676,6 +983,32 @@ class Inliner:
         ystmts = [n for n in inner if isinstance(n, ast.Expr) and isinstance(n.value, ast.Yield) and n.value.value is not None]
         if not yields or len(yields) != len(ystmts) or (consumer == 'for' and len(yields) != 1):
             return None
+        if consumer == 'for':
+            # `continue` in BODY asks the generator for its next value: the same as falling off the end of BODY when nothing follows the
+            # `yield` in the iteration of the generator's loop; `break` abandons the generator: the same as leaving that loop when the
+            # loop is the last thing the generator does
+            jumps_c = _own_jumps(st.body, (ast.Continue,))
+            jumps_b = _own_jumps(st.body, (ast.Break,))
+            if jumps_c or jumps_b:
+                gbody = [s_ for s_ in hnode.body if not (isinstance(s_, ast.Expr) and isinstance(s_.value, ast.Constant))]
+                loops_ = [n for n in inner if isinstance(n, (ast.For, ast.While)) and any(y is ystmts[0] for y in ast.walk(n))]
+                if len(loops_) != 1 or loops_[0].orelse:
+                    return None
+                lp = loops_[0]
+
+                def tail(stmts_):
+                    if not stmts_:
+                        return False
+                    l_ = stmts_[-1]
+                    if l_ is ystmts[0]:
+                        return True
+                    if isinstance(l_, ast.If) and not any(y is ystmts[0] for o_ in l_.orelse for y in ast.walk(o_)):
+                        return tail(l_.body)
+                    return False
+                if not tail(lp.body):
+                    return None
+                if jumps_b and not (gbody and gbody[-1] is lp):
+                    return None
         if call.keywords or any(isinstance(a, ast.Starred) for a in call.args) or hnode.args.vararg or hnode.args.kwarg or hnode.args.kwonlyargs:
             return None
         k = next(_counter)
@@ -708,12 +1041,23 @@ class Inliner:
             mapping[p_] = a_
         caller_names = _all_names(fn)
         rename = {n_: f'{n_}__inl{k}' for n_ in _assigned_names(h) - set(params) if n_ in caller_names}
+        if consumer == 'for':
+            # a generator local that carries the value straight into the loop variable of the same name keeps its name
+            tnames = [st.target.id] if isinstance(st.target, ast.Name) else [e_.id for e_ in st.target.elts]
+            yv = ystmts[0].value.value
+            yvals = [yv] if isinstance(st.target, ast.Name) else (list(yv.elts) if isinstance(yv, ast.Tuple) and len(yv.elts) == len(tnames) else [])
+            for t_, e_ in zip(tnames, yvals):
+                if isinstance(e_, ast.Name) and e_.id == t_ and t_ in rename and not any(
+                        isinstance(n_, ast.Name) and n_.id == t_ for s_ in fn.body for n_ in ast.walk(s_) if not any(n_ is x_ for x_ in ast.walk(st))):
+                    rename.pop(t_)
         body = [s_ for s_ in h.body]
         if body and isinstance(body[0], ast.Expr) and isinstance(body[0].value, ast.Constant) and isinstance(body[0].value.value, str):
             body = body[1:]
         sub = _Subst(mapping, rename)
         body = [sub.visit(s_) for s_ in body]
         acc = f'__acc{k}'
+        if extend_to is not None:
+            acc = ast.unparse(extend_to)
 
         def rewrite(stmts: list) -> list:
             out = []
@@ -721,10 +1065,18 @@ class Inliner:
                 if isinstance(s_, ast.Expr) and isinstance(s_.value, ast.Yield):
                     v = s_.value.value
                     if consumer == 'for':
-                        out.append(ast.copy_location(ast.Assign([ast.Name(st.target.id, ast.Store())], v, lineno=s_.lineno), s_))
+                        if isinstance(st.target, ast.Tuple) and isinstance(v, ast.Tuple) and len(v.elts) == len(st.target.elts):
+                            # parallel binding; the right-hand sides are the generator's own (renamed) locals or plain values
+                            tmp_ = []
+                            for t_, e_ in zip(st.target.elts, v.elts):
+                                if not (isinstance(e_, ast.Name) and e_.id == t_.id):
+                                    tmp_.append(ast.copy_location(ast.Assign([ast.Name(t_.id, ast.Store())], e_, lineno=s_.lineno), s_))
+                            out.extend(tmp_)
+                        elif not (isinstance(v, ast.Name) and isinstance(st.target, ast.Name) and v.id == st.target.id):
+                            out.append(ast.copy_location(ast.Assign([copy.deepcopy(st.target)], v, lineno=s_.lineno), s_))
                         out.extend(st.body)
                     else:
-                        out.append(ast.copy_location(ast.Expr(ast.Call(ast.Attribute(ast.Name(acc, ast.Load()), 'add' if consumer == 'set' else 'append', ast.Load()),
+                        out.append(ast.copy_location(ast.Expr(ast.Call(ast.Attribute(ast.parse(acc, mode='eval').body, 'add' if consumer == 'set' else 'append', ast.Load()),
                                                                         [v], [])), s_))
                     continue
                 for fld in ('body', 'orelse', 'finalbody'):
@@ -736,17 +1088,43 @@ class Inliner:
                 out.append(s_)
             return out
         body = rewrite(body)
-        if consumer == 'for':
+        if consumer == 'for' or extend_to is not None:
             out = body
         else:
             init = ast.Call(ast.Name('set', ast.Load()), [], []) if consumer == 'set' else ast.List([], ast.Load())
-            out = [ast.copy_location(ast.Assign([ast.Name(acc, ast.Store())], init, lineno=st.lineno), st)] + body + \
-                  [ast.copy_location(ast.Assign(st.targets, ast.Name(acc, ast.Load()), lineno=st.lineno), st)]
+            if isinstance(st, ast.Assign) and isinstance(st.targets[0], ast.Name) and st.targets[0].id not in _all_names(h) and \
+                    not any(isinstance(n_, ast.Name) and n_.id == st.targets[0].id for a_ in call.args for n_ in ast.walk(a_)):
+                # the accumulator IS the target (`tasks = []; ...; tasks.append(v)`): the loop a maintainer would have written
+                tname = st.targets[0].id
+                for n_ in [x_ for b_ in body for x_ in ast.walk(b_)]:
+                    if isinstance(n_, ast.Name) and n_.id == acc:
+                        n_.id = tname
+                out = [ast.copy_location(ast.Assign([ast.Name(tname, ast.Store())], init, lineno=st.lineno), st)] + body
+            else:
+                last = ast.Return(ast.Name(acc, ast.Load())) if isinstance(st, ast.Return) else ast.Assign(st.targets, ast.Name(acc, ast.Load()), lineno=st.lineno)
+                out = [ast.copy_location(ast.Assign([ast.Name(acc, ast.Store())], init, lineno=st.lineno), st)] + body + [ast.copy_location(last, st)]
         self._count(hnode)
         return [ast.fix_missing_locations(x) for x in out] or [ast.Pass()]
 
     def _count(self, hnode):
         self.inlined[hnode.name] = self.inlined.get(hnode.name, 0) + 1
+
+
+def _unwalrus(e: ast.AST) -> ast.AST:
+    """`(t := <name / attribute chain>) is not None and not t.done()`: t abbreviates the chain (read twice instead of once: no call in it)"""
+    for w in [n for n in ast.walk(e) if isinstance(n, ast.NamedExpr)]:
+        if not (isinstance(w.target, ast.Name) and _simple(w.value)):
+            continue
+        t = w.target.id
+
+        class R(ast.NodeTransformer):
+            def visit_NamedExpr(self, n):
+                return copy.deepcopy(w.value) if n is w else self.generic_visit(n)
+
+            def visit_Name(self, n):
+                return copy.deepcopy(w.value) if n.id == t and isinstance(n.ctx, ast.Load) else n
+        e = R().visit(e)
+    return e
 
 
 def _fold_constant_ifs(stmts: list) -> list:
